@@ -649,6 +649,11 @@ func (api *pubSubAPI) subscribePendingTransactions(wsConn *wsConn, subID rpc.ID)
 				}
 
 				for _, ethTx := range ethTxs {
+					if ethTx.ValidateBasic() != nil {
+						// the Tx event is published for failed transactions too; HashStr panics on an undecodable payload
+						continue
+					}
+
 					// write to ws conn
 					res := &SubscriptionNotification{
 						Jsonrpc: "2.0",
